@@ -19,6 +19,7 @@ Merge(it, new) == [x \in DOMAIN it \cup DOMAIN new |-> IF x \in DOMAIN new THEN 
 Pred(p, it) ==
   CASE p.f = "a_eq"      -> it["a"] = p.v
     [] p.f = "b_notnone" -> Has(it, "b") /\ it["b"] # None
+    [] p.f = "b_value"   -> Has(it, "b") /\ it["b"] # None /\ it["b"] # 0     \* the predicate returns the value itself: Python truthiness
     [] p.f = "true"      -> TRUE
     [] p.f = "false"     -> FALSE
 PredNeeds(p) == IF p.f = "a_eq" THEN {"a"} ELSE {}
